@@ -164,7 +164,28 @@ def sx_call(k):
         return "(copy %s%s)" % (sx_ptr(k[1]), "".join(" " + sx_opt(o) for o in k[2]))
     if k[0] == "copyto":
         return "(copyto %s %s%s)" % (sx_ptr(k[1]), sx_ptr(k[2]), "".join(" " + sx_opt(o) for o in k[3]))
+    if k[0] == "pureg":
+        return "(pureg %s %s)" % (sx_anyarg(k[1]), sx_anyarg(k[2]))
     return "(pure %s %s)" % (sx_val(k[1]), sx_val(k[2]))
+
+
+PURE = ("pure", "pureg")
+
+
+def has_nil_arg(k):
+    """the call passes a nil pointer / nil interface as src or dst"""
+    if k[0] == "copy":
+        return k[1] is None
+    if k[0] == "copyto":
+        return k[1] is None or k[2] is None
+    if k[0] == "pureg":
+        return any(a is None or (a[0][0] == "p" and a[1][0] == "nil") for a in (k[1], k[2]))
+    return False
+
+
+def sx_anyarg(a):
+    """an argument of the package-level CopyTo: None = the nil interface, (TY, VAL) = VAL of dynamic type TY"""
+    return "nil" if a is None else "(a %s %s)" % (sx_ty(a[0]), sx_val(a[1]))
 
 
 def sx_case(cs):
@@ -262,7 +283,7 @@ def collect_defined(t, acc):
 
 def case_types(cs):
     ts = [cs["src"], cs["dst"]]
-    for o in list(cs["opts"]) + [o for k in cs["calls"] if k[0] != "pure" for o in k[-1]]:
+    for o in list(cs["opts"]) + [o for k in cs["calls"] if k[0] not in PURE for o in k[-1]]:
         if o[0] == "cv" and o[2] is not None:
             ts += [o[2][0], o[2][1]]
     return ts
@@ -377,6 +398,10 @@ def go_case(c, cs):
     out.append("\to.Ctor(func() (err error) { c, err = copier.NewReflectCopier[S, D](%s); return })" % dopts)
     st, dt = cs["src"], cs["dst"]
     for k in cs["calls"]:
+        if k[0] == "pureg":
+            ga = ["nil" if a is None else go_val(c, a[0], a[1]) for a in (k[1], k[2])]
+            out.append("\to.PureG(func() error { return copier.CopyTo(%s, %s) })" % (ga[0], ga[1]))
+            continue
         if k[0] == "pure":
             out.append("\to.Pure(func() (any, func() (any, error)) {")
             out.append("\t\ta := %s" % go_val(c, st, k[1]))
@@ -491,30 +516,33 @@ def coq_call(k):
         return "(CallCopy %s %s)" % (coq_optptr(k[1]), coq_list([coq_opt(o) for o in k[2]]))
     if k[0] == "copyto":
         return "(CallCopyTo %s %s %s)" % (coq_optptr(k[1]), coq_optptr(k[2]), coq_list([coq_opt(o) for o in k[3]]))
+    if k[0] == "pureg":
+        return "(NPure %s %s)" % tuple("None" if a is None else "(Some (%s, %s))" % (coq_ty(a[0]), coq_val(a[1])) for a in (k[1], k[2]))
     return "(CallPure %s %s)" % (coq_val(k[1]), coq_val(k[2]))
 
 
 CERR_CODE = {"entry": 1, "kind": 2, "type": 3, "multiptr": 4, "convtype": 5, "user": 6}
 COQ_CERR = {"entry": "CEntry", "kind": "CKind", "type": "CType", "multiptr": "CMultiPtr", "convtype": "CConvType", "user": "CUser"}
 
-CROSS_PRELUDE = """From Ekit Require Import Common CopierModel.
+CROSS_PRELUDE = """From Ekit Require Import Common CopierModel CopierNilModel.
 Definition dummy : copier := {| c_root := Node 0 0%nat 0%nat false []; c_defaults := new_options |}.
-Inductive exp := EStat (s : status) (v : option (option value)) | ESkip.
-Definition chk_call (oc : option copier) (st dt : ty) (k : call) (e : exp) : bool :=
+Inductive exp := EStat (s : nstatus) (v : option (option value)) | ESkip.
+Definition chk_call (oc : option copier) (st dt : ty) (k : ncall) (e : exp) : bool :=
   let cop := match oc, k with
              | Some c, _ => Some c
-             | None, CallPure _ _ => Some dummy
+             | None, NCall (CallPure _ _) => Some dummy
+             | None, NPure _ _ => Some dummy
              | None, _ => None end in
   match cop, e with
   | None, ESkip => true
   | Some c, EStat s v =>
-      let '(p, stt) := run_call c st dt k in
-      status_eqb stt s && match v with None => true | Some w => optvalue_eqb p w end
+      let '(p, stt) := run_call_now c st dt k in
+      nstatus_eqb stt s && match v with None => true | Some w => optvalue_eqb p w end
   | _, _ => false
   end.
 Definition ctor_code {A} (r : cres A) : Z :=
   match r with COk _ => 0 | CErr e => cerr_code e | CPanic => 99 end.
-Definition chk_case (st dt : ty) (ps : list opt) (ctor : Z) (cs : list (call * exp)) : bool :=
+Definition chk_case (st dt : ty) (ps : list opt) (ctor : Z) (cs : list (ncall * exp)) : bool :=
   let r := new_reflect_copier st dt ps in
   Z.eqb (ctor_code r) ctor &&
   forallb (fun ke => chk_call (match r with COk c => Some c | _ => None end) st dt (fst ke) (snd ke)) cs.
@@ -540,12 +568,13 @@ def coq_case(cs, mline):
         if st == "skip":
             e = "ESkip"
         elif st == "panic":
-            e = "(EStat SPanic None)"
+            e = "(EStat (NStat SPanic) None)"
         else:
-            s = "SOk" if st == "ok" else "(SErr %s)" % COQ_CERR[st[4:]]
-            w = "None" if d == "nil" else "(Some %s)" % coq_val(val_of_sx(parse_sx(d)))
-            e = "(EStat %s (Some %s))" % (s, w)
-        items.append("(%s, %s)" % (coq_call(k), e))
+            s = "(NStat SOk)" if st == "ok" else "NNil" if st == "err:nil" else "(NStat (SErr %s))" % COQ_CERR[st[4:]]
+            w = "None" if d == "nil" else "(Some %s)" % coq_val(val_of_sx(parse_sx(d))) if d != "-" else None
+            e = "(EStat %s %s)" % (s, "None" if w is None else "(Some %s)" % w)
+        ck = coq_call(k)
+        items.append("(%s, %s)" % (ck if k[0] == "pureg" else "(NCall %s)" % ck, e))
     return "chk_case %s %s %s %d %s" % (coq_ty(cs["src"]), coq_ty(cs["dst"]), coq_list([coq_opt(o) for o in cs["opts"]]),
                                        code, coq_list(items))
 
@@ -1195,6 +1224,27 @@ def edge_cases(g):
     return out
 
 
+def nil_cases():
+    T = mkstruct(None, (1, True, I_), (2, True, S_))
+    U = mkstruct(None, (1, True, S_), (3, True, I_))             # F1 of another type: a copy would fail with a Kind error
+    N = mkstruct(7, (1, True, I_), (2, True, ("p", I_)))         # a defined struct type with a pointer field
+    out = []
+    for A, B in ((T, T), (T, U), (N, N), (N, T)):
+        va, vb = (lambda t: ("st", tuple(zero_val(ft) if ft[0] == "p" else (("i", 4) if ft == I_ else ("x", b"q")) for _, _, ft in t[2])))(A), None
+        vb = ("st", tuple(zero_val(ft) if ft[0] == "p" else (("i", 9) if ft == I_ else ("x", b"z")) for _, _, ft in B[2]))
+        pa, pb = (("p", A), ("ptr", va)), (("p", B), ("ptr", vb))
+        na, nb = (("p", A), ("nil",)), (("p", B), ("nil",))
+        calls = [("copyto", va, None, ()), ("copyto", None, vb, ()), ("copyto", None, None, ()), ("copy", None, ()),
+                 ("pureg", None, pb), ("pureg", pa, None), ("pureg", None, None),
+                 ("pureg", na, pb), ("pureg", pa, nb), ("pureg", na, nb), ("pureg", pa, pb),
+                 # kinds are checked before typed nil pointers, the nil interface before kinds
+                 ("pureg", na, (I_, ("i", 5))), ("pureg", (I_, ("i", 5)), nb), ("pureg", (I_, ("i", 5)), None), ("pureg", None, (I_, ("i", 5))),
+                 ("pureg", (("p", I_), ("nil",)), pb), ("pureg", pa, (("p", S_), ("nil",))), ("pureg", (A, va), nb), ("pureg", na, (B, vb)),
+                 ("pureg", (("p", ("p", A)), ("nil",)), pb)]
+        out.append(dict(src=A, dst=B, opts=(), calls=tuple(calls)))
+    return out
+
+
 def corpus():
     """tiny fixed corpus, always first: the former constructor panic, a plain copy, the option-leak sequence, the zero skip"""
     T = mkstruct(None, (1, True, I_), (2, True, S_), (3, True, I_), (4, True, S_))
@@ -1214,6 +1264,9 @@ def corpus():
     cs.append(dict(src=mkstruct(None, (1, True, I_)), dst=mkstruct(None, (1, True, ERROR_)), opts=(),
                    calls=(("copyto", ("st", (("i", 0),)), ("st", (("op", 1),)), (("cv", 1, (I_, ERROR_, ("cnil",))),)),
                           ("copy", ("st", (("i", 3),)), (("cv", 1, (I_, ERROR_, ("dyn", FOREIGN, ("op", 1)))),)))))
+    # nil arguments (the nil-argument fix): every shape, on matching and mismatching pairs, so that the ORDER of the checks
+    # shows (nil interface first; then the four entry kind checks; then typed nil pointers)
+    cs += nil_cases()
     # the replay of the known finding C20:copy:zero-skip (known_findings.json), verbatim
     Z1 = mkstruct(None, (1, True, I_))
     cs.append(dict(src=Z1, dst=Z1, opts=(), calls=(("copyto", ("st", (("i", 0),)), ("st", (("i", 9),)), ()),)))
@@ -1350,8 +1403,10 @@ def classify(cs, mline, iline, shared=False, zline=None):
     if len(mr) != len(ir):
         return "C20:harness:short"
     for k, (ms, md), (is_, id_) in zip(cs["calls"], mr, ir):
-        op = "pure" if k[0] == "pure" else "copy"
+        op = "pure" if k[0] in PURE else "copy"
         pre = "C20:shared:" if shared and op == "copy" else "C20:%s:" % op
+        if is_.startswith("panic") and not ms.startswith("panic") and has_nil_arg(k):
+            return "C20:copy:nil-arg"       # a nil argument must give an error (or a no-op), never a panic
         if is_ == "diverge":
             return "C20:shared:diverge"
         if "!srcmod" in is_:
@@ -1368,7 +1423,7 @@ def case_keys(cs):
     keys = [("call", i) for i in range(len(cs["calls"]))]
     keys += [("dopt", j) for j in range(len(cs["opts"]))]
     for i, k in enumerate(cs["calls"]):
-        if k[0] != "pure":
+        if k[0] not in PURE:
             keys += [("copt", i, j) for j in range(len(k[-1]))]
     names = set()
     for t in case_types(cs):
@@ -1434,6 +1489,9 @@ def apply_keys(cs, keys):
     for i, k in enumerate(cs["calls"]):
         if ("call", i) in keys:
             continue
+        if k[0] == "pureg":
+            calls.append(list(k))
+            continue
         if k[0] == "pure":
             calls.append(["pure", drop_val(st0, k[1], F), drop_val(dt0, k[2], F)])
             continue
@@ -1444,9 +1502,11 @@ def apply_keys(cs, keys):
         else:
             calls.append(["copyto", s, None if k[2] is None else drop_val(dt0, k[2], F), os_])
     # top-level only deletions
-    st, svals = drop_top(st, [k[1] for k in calls], sF, 1000)
-    dt, dvals = drop_top(dt, [k[2] if k[0] != "copy" else None for k in calls], dF, 2000)
+    st, svals = drop_top(st, [k[1] if k[0] != "pureg" else None for k in calls], sF, 1000)
+    dt, dvals = drop_top(dt, [k[2] if k[0] not in ("copy", "pureg") else None for k in calls], dF, 2000)
     for k, sv, dv in zip(calls, svals, dvals):
+        if k[0] == "pureg":         # its arguments carry their own types
+            continue
         k[1] = sv
         if k[0] != "copy":
             k[2] = dv
@@ -1609,7 +1669,8 @@ def process_batch(c, cases, res, stats, budget):
                     small = cs
             except BuildFailed:
                 small = cs
-        what = {"C20:ctor:panic": "NewReflectCopier panics on a pair of struct types (the model reports %s)" % split_line(m or "ctor=?")[0]}.get(
+        what = {"C20:ctor:panic": "NewReflectCopier panics on a pair of struct types (the model reports %s)" % split_line(m or "ctor=?")[0],
+                "C20:copy:nil-arg": "a nil src / dst argument makes CopyTo panic instead of returning an error: implementation `%s`, model `%s`" % (line, m)}.get(
             sig, "bean/copier disagrees with the verified model (%s): implementation `%s`, model `%s`" % (sig, line, m))
         extra = {}
         if shared and i in res["crashes"]:
@@ -1672,7 +1733,7 @@ def alias_pass(c, cases, res, stats, budget):
             continue
         elems = elem_has_ptr(cs["src"]) or elem_has_ptr(cs["dst"])
         for j, k in enumerate(cs["calls"]):
-            if k[0] == "pure":
+            if k[0] in PURE or (k[0] == "copyto" and k[2] is None):     # pure calls / nil dst: not in the memory model
                 continue
             a, x, t = ap[j + 1], mmp[j + 1], mp[j + 1]
             sig = what = None
@@ -1728,7 +1789,7 @@ def main(tier):
     total = 150 if tier == "quick" else 2000
     per = 150 if tier == "quick" else 250
     stats, budget = {}, {"seen": set()}
-    fams, call_kinds = {}, {"copy": 0, "copyto": 0, "pure": 0}
+    fams, call_kinds = {}, {"copy": 0, "copyto": 0, "pure": 0, "pureg": 0}
     c.cov.update({"nil_dst_cases": 0, "nil_src_cases": 0, "zero_skip_cases": 0, "ctor_outcomes": {}, "call_statuses": {},
                   "cases_with_default_options": 0, "calls_with_per_call_options": 0, "conc_calls": 0})
     agree = 0
@@ -1756,7 +1817,8 @@ def main(tier):
             for k, (s, _) in zip(cs["calls"], calls):
                 call_kinds[k[0]] += 1
                 c.cov["call_statuses"][s] = c.cov["call_statuses"].get(s, 0) + 1
-                if k[0] != "pure":
+                c.cov["nil_arg_calls"] = c.cov.get("nil_arg_calls", 0) + (1 if has_nil_arg(k) else 0)
+                if k[0] not in PURE:
                     c.cov["calls_with_per_call_options"] += 1 if k[-1] else 0
                     c.cov["nil_src_cases"] += 1 if k[1] is None else 0
                     c.cov["conc_calls"] += 1 if ctor == "ok" else 0
